@@ -235,7 +235,7 @@ def run_case(typ, body, state, stats, V, as4=True):
 
 def plan(tier, seed):
     n = 16
-    per = 9000 if tier == 'quick' else 150000
+    per = 20000 if tier == 'quick' else 150000
     return [dict(part=i, nparts=n, seed=seed * 100 + i, n=per, tier=tier) for i in range(n)]
 
 
